@@ -184,6 +184,8 @@ pub struct FringeStats { pub pushes: usize, pub pops: usize, pub clears: usize, 
     #[serde(default)] pub repush_of_popped: usize }
 /// same counter, readable from the fatal hook of the scheduler
 pub static REPUSH_OF_POPPED: AtomicUsize = AtomicUsize::new(0);
+/// (state key, depth) of the first re-pushed sub-problems (readable from the fatal hook); the key comes from `CheckedFringe::key_of`
+pub static REPUSHED_KEYS: Mutex<Vec<(u64, usize)>> = Mutex::new(Vec::new());
 
 /// Runs a reference multiset next to the real fringe and compares every operation (C11 in situ).
 /// `dedup`: the wrapped fringe is allowed to coalesce entries that denote the same sub-problem (state, depth).
@@ -196,9 +198,12 @@ pub struct CheckedFringe<F: Fringe> where F::State: Clone {
     /// max number of pops before the run is declared non-terminating (C01/C15 step bound); 0 = unbounded
     pub pop_bound: usize,
     popped: Vec<(F::State, usize, Vec<ddo::Decision>)>,
+    /// the first few sub-problems that were pushed although they had already been popped (state, depth)
+    pub repushed: Vec<(F::State, usize)>,
+    pub key_of: Option<fn(&F::State) -> u64>,
 }
 impl<F: Fringe> CheckedFringe<F> where F::State: Clone + Eq + Debug {
-    pub fn new(inner: F, dedup: bool) -> Self { CheckedFringe { inner, dedup, reference: vec![], stats: Default::default(), errors: vec![], pop_bound: 0, popped: vec![] } }
+    pub fn new(inner: F, dedup: bool) -> Self { CheckedFringe { inner, dedup, reference: vec![], stats: Default::default(), errors: vec![], pop_bound: 0, popped: vec![], repushed: vec![], key_of: None } }
     fn err(&mut self, e: String) { if self.errors.len() < 5 { self.errors.push(e); } }
     fn check_len(&mut self, op: &str) {
         if self.inner.len() != self.reference.len() {
@@ -215,7 +220,7 @@ impl<F: Fringe> Fringe for CheckedFringe<F> where F::State: Clone + Eq + Debug {
     fn push(&mut self, node: SubProblem<F::State>) {
         self.stats.pushes += 1;
         if sched::trace_on() { eprintln!("[fringe] {:?} push state={:?} depth={} value={} ub={}", sched::current_tid(), node.state, node.depth, node.value, node.ub); }
-        if self.popped.len() <= 4096 && self.popped.iter().any(|(s, d, p)| *d == node.depth && *s == *node.state && *p == node.path) { self.stats.repush_of_popped += 1; REPUSH_OF_POPPED.fetch_add(1, Ordering::SeqCst); }
+        if self.popped.len() <= 4096 && self.popped.iter().any(|(s, d, p)| *d == node.depth && *s == *node.state && *p == node.path) { self.stats.repush_of_popped += 1; REPUSH_OF_POPPED.fetch_add(1, Ordering::SeqCst); if self.repushed.len() < 4 { self.repushed.push((node.state.as_ref().clone(), node.depth)); if let Some(k) = self.key_of { REPUSHED_KEYS.lock().unwrap().push((k(node.state.as_ref()), node.depth)); } } }
         let existing = if self.dedup { self.reference.iter().position(|x| same_sub(x, &node)) } else { None };
         match existing {
             Some(i) => {
